@@ -27,6 +27,30 @@ CLAIMED = {
         note="Trusted: Coq kernel, translator, extraction, harness; memchr/memmem modelled by specification. Whitespace for trimming is the predicate the code applies to that representation. Axioms: none.",
         technique="Coq proof over a hand model + differential correspondence with spec oracle",
     ),
+    "C02": dict(
+        text="Coq theorems: every algorithm that scores through calculate_score (greedy incl. its backward minimisation and forward re-walk, substring, prefix, postfix, exact, the equal-length / tight-window / single-character shortcuts) reports exactly one strictly increasing in-range index per needle character whose normalised haystack character equals it (C02_linear_witness), contiguous and anchored as the kind requires for substring/prefix/postfix/exact (C02_shape); the prior content of the caller's vector is a prefix of the result and untouched on failure. Partial: the DP's reconstruct_optimal_path witness property (DP_witness_stmt) is validated, not yet proved: by the differential run on indices with a non-empty prior vector and by the embedding oracle on the implementation's indices (exhaustive small strings in the thorough tier).",
+        design_ref="DESIGN.md section 6, C02",
+        note="Trusted: Coq kernel, translator, extraction, harness; memchr/memmem by specification. Axioms: none.",
+        technique="Coq proof over a hand model + differential correspondence with embedding oracle",
+    ),
+    "C03": dict(
+        text="Coq theorems: the bonus rule equals the literal fzf table for every configuration and the presets carry 10/9 and 8/9 (C03_bonus_table, C03_presets: a changed constant or preset in score.rs/config.rs breaks them at the next run because GenScore.v is regenerated); calculate_score and the single-character scorers return fzf_score (literal constants) of the alignment they report for needles up to 2500 characters (C03_linear_score), every linear scorer saturates at 65535 instead of wrapping (C03_no_wrap), same alignment => same score (C03_same_alignment); the naive statements without needle_ok / bonus bound are refuted with witnesses. Partial: the DP's score/alignment coherence (DP_score_stmt) is validated by the differential run on scores and the fzf oracle on reported indices, not yet proved.",
+        design_ref="DESIGN.md section 6, C03",
+        note="Trusted: Coq kernel, translator, extraction, harness. Scores saturate (fix commit 1d227ff) - equality with the scheme is claimed below saturation. Axioms: none.",
+        technique="Coq refinement proof (loop invariant) to a literal spec + translator-regenerated constants + differential correspondence",
+    ),
+    "C04": dict(
+        text="Coq theorems: the best-position search behind one-character needles and substring matching returns the leftmost candidate with the maximal bonus and its early exit is sound for every configuration (C04_best_pos, C04_max_bonus: the clause that failed under the path configuration before fix 13b35fc); the linear prefix bonus lies in [0,8]. Partial: score <= maximum over all alignments, = recurrence, one-character optimum in final form and the DP prefix bound are validated by the brute-force oracle (all embeddings, haystack <= 9 chars) and by pairing every input with prefer_prefix off/on; DP proofs pending (statements in Spec/Statements.v).",
+        design_ref="DESIGN.md section 6, C04",
+        note="Trusted: Coq kernel, translator, extraction, harness; brute force limited to haystacks of at most 9 characters. Axioms: none.",
+        technique="Coq proof (argmax with early exit) + brute-force oracle on the implementation",
+    ),
+    "C10": dict(
+        text="Coq theorems: whenever MatrixSlab::alloc hands out views they lie inside the 133120-byte slab, are pairwise disjoint and aligned (C10_layout), over element-count expressions translated from MatrixLayout::new and fieds_from_ptr on every run (the `* haystack_len` extent of the pinned tree made this theorem fail; fixed in 5627689); the greedy entry point never panics (C10_greedy_total) and linear scores saturate (C10_no_wrap). Partial: no-panic and scratch-row independence of the DP are validated (not yet proved) by running every case on one shared Matcher and on a fresh Matcher per call in the debug profile (overflow checks on), sizes around every guard, needles of 2500-4000 characters, late starts with prefer_prefix; the cfg facade exports the real view extents which are compared with the model.",
+        design_ref="DESIGN.md section 6, C10",
+        note="Trusted: Coq kernel, translator (layout expressions), extraction, harness; pointer provenance not modelled. Axioms: none.",
+        technique="Coq arithmetic proof over translated layout expressions + call-sequence differential harness",
+    ),
 }
 PENDING_REASON = "not claimed yet: the Coq model, theorems and code tie for this property are still being built in this session (design in DESIGN.md section 6); no other technique is substituted"
 
